@@ -116,38 +116,56 @@ def parseVendors (s : String) : Option (List VendorId) :=
 def parseBool (s : String) : Option Bool :=
   match s with | "0" => some false | "1" => some true | _ => none
 
+/-- a byte argument that stands for a Rust enum: only the values the enum has can be expressed
+through the API, so anything else is not an operation (the executor refuses it the same way) -/
+def parseByteIn (s : String) (vals : List Nat) : Option B :=
+  match parseByte s with
+  | some b => if vals.contains b.toNat then some b else none
+  | none => none
+
+/-- 16-byte array arguments -/
+def parseBytes16 (s : String) : Option Bytes :=
+  match parseBytes s with
+  | some b => if b.length = 16 then some b else none
+  | none => none
+
 /-- encoder name + argument tokens (without the trailing buffer) -/
 def parseEnc (name : String) (a : List String) : Option Enc :=
   match name, a with
-  | "reqSetEid", [op, e] => do pure (.reqSetEid (← parseByte op) (← parseByte e))
+  | "reqSetEid", [op, e] => do pure (.reqSetEid (← parseByteIn op [0, 1, 2, 3]) (← parseByte e))
   | "reqGetEid", [] => some .reqGetEid
   | "reqGetUuid", [] => some .reqGetUuid
-  | "reqVersion", [q] => do pure (.reqVersion (← parseByte q))
+  | "reqVersion", [q] => do pure (.reqVersion (← parseByteIn q [0xFF, 0, 1, 2, 3]))
   | "reqMsgTypes", [] => some .reqMsgTypes
   | "reqVendor", [s] => do pure (.reqVendor (← parseByte s))
   | "reqResolveEid", [e] => do pure (.reqResolveEid (← parseByte e))
-  | "reqAllocate", [op, n, f] => do pure (.reqAllocate (← parseByte op) (← parseByte n) (← parseByte f))
-  | "reqRouting", [es] => do pure (.reqRouting (← parseBytes es))
-  | "reqRoutingNew", [es] => do pure (.reqRouting (← parseBytes es))   -- entries built by `::new` (types 0-3)
+  | "reqAllocate", [op, n, f] => do pure (.reqAllocate (← parseByteIn op [0, 1, 2]) (← parseByte n) (← parseByte f))
+  | "reqRouting", [es] => do
+      let raw ← parseBytes es
+      if raw.length % 4 = 0 then pure (.reqRouting raw) else none
+  | "reqRoutingNew", [es] => do     -- entries built by `::new`: the entry type is an enum (0-3)
+      let raw ← parseBytes es
+      let typesOk := (List.range (raw.length / 4)).all fun i => decide ((byteAt raw (4 * i)).toNat ≤ 3)
+      if raw.length % 4 = 0 && typesOk then pure (.reqRouting raw) else none
   | "reqGetRouting", [h] => do pure (.reqGetRouting (← parseByte h))
   | "reqPrepare", [] => some .reqPrepare
   | "reqDiscovery", [] => some .reqDiscovery
   | "reqNotify", [] => some .reqNotify
   | "reqNetworkId", [] => some .reqNetworkId
-  | "reqQueryHop", [e, t] => do pure (.reqQueryHop (← parseByte e) (← parseByte t))
-  | "reqResolveUuid", [u, h] => do pure (.reqResolveUuid (← parseBytes u) (← parseByte h))
+  | "reqQueryHop", [e, t] => do pure (.reqQueryHop (← parseByte e) (← parseByteIn t [0x00, 0x05, 0x06, 0x7E, 0x7F, 0xFF]))
+  | "reqResolveUuid", [u, h] => do pure (.reqResolveUuid (← parseBytes16 u) (← parseByte h))
   | "reqQueryRate", [] => some .reqQueryRate
   | "reqTxRate", [] => some .reqTxRate
   | "reqUpdateRate", [] => some .reqUpdateRate
   | "reqQueryIfaces", [] => some .reqQueryIfaces
   | "vendorDefined", [v, msg] => do pure (.vendorDefined (← parseVendor v) (← parseBytes msg))
-  | "respSetEid", [cc, rej, al] => do pure (.respSetEid (← parseByte cc) (← parseBool rej) (← parseByte al))
+  | "respSetEid", [cc, rej, al] => do pure (.respSetEid (← parseByteIn cc [0, 1, 2, 3, 4, 5]) (← parseBool rej) (← parseByteIn al [0, 1, 2]))
   | "respGetEid", [cc, et, it, f] => do
-      pure (.respGetEid (← parseByte cc) (← parseByte et) (← parseByte it) (← parseBool f))
-  | "respUuid", [cc, u] => do pure (.respUuid (← parseByte cc) (← parseBytes u))
-  | "respVersion", [cc] => do pure (.respVersion (← parseByte cc))
-  | "respMsgTypes", [cc, ts] => do pure (.respMsgTypes (← parseByte cc) (← parseBytes ts))
-  | "respVendor", [cc, s, v] => do pure (.respVendor (← parseByte cc) (← parseByte s) (← parseBytes v))
+      pure (.respGetEid (← parseByteIn cc [0, 1, 2, 3, 4, 5]) (← parseByteIn et [0, 1]) (← parseByteIn it [0, 1, 2, 3]) (← parseBool f))
+  | "respUuid", [cc, u] => do pure (.respUuid (← parseByteIn cc [0, 1, 2, 3, 4, 5]) (← parseBytes16 u))
+  | "respVersion", [cc] => do pure (.respVersion (← parseByteIn cc [0, 1, 2, 3, 4, 5]))
+  | "respMsgTypes", [cc, ts] => do pure (.respMsgTypes (← parseByteIn cc [0, 1, 2, 3, 4, 5]) (← parseBytes ts))
+  | "respVendor", [cc, s, v] => do pure (.respVendor (← parseByteIn cc [0, 1, 2, 3, 4, 5]) (← parseByte s) (← parseBytes v))
   | "genControl", [h, d] => do pure (.genControl (← parseOptBytes h) (← parseBytes d))
   | "genPci", [h, d] => do pure (.genPci (← parseOptBytes h) (← parseBytes d))
   | "genIana", [h, d] => do pure (.genIana (← parseOptBytes h) (← parseBytes d))
@@ -621,7 +639,7 @@ def handle (st : St) (line : String) : St × String :=
       | .panic p => (st, answer (showPanic p) judge impl)
     | _, _ => (st, "bad-op")
   | ["new", "routing", t, sz, f, ph] =>
-    match parseByte t, parseByte sz, parseByte f, parseByte ph with
+    match parseByteIn t [0, 1, 2, 3], parseByte sz, parseByte f, parseByte ph with
     | some t, some sz, some f, some ph =>
       (st, answer (hexBytes (routingEntryNew t sz f ph)) (viewJudge st "C18" parseBytesObs (Spec.judgeNewRouting t sz f ph)) impl)
     | _, _, _, _ => (st, "bad-op")
